@@ -231,20 +231,20 @@ impl Lexer {
     /// This function handles the string escape codes available in RARS. Due to
     /// escape codes, the number of characters in the string may be less than
     /// the source range.
-    fn acc_string(&mut self) -> Result<String, StringLexError> {
+    fn acc_string(&mut self, opening: Position) -> Result<String, StringLexError> {
         let mut acc: String = String::new();
+        // The last character of the string that was seen on its line
+        let mut last = opening;
 
         while let Some(current) = self.current() {
             if current == '"' {
                 return Ok(acc);
             }
 
-            // All strings must be on a single line
+            // All strings must be on a single line: the error ends with the
+            // last character of that line
             if current == '\n' {
-                return Err(StringLexError::new(
-                    self.get_pos(),
-                    StringLexErrorType::Newline,
-                ));
+                return Err(StringLexError::new(last, StringLexErrorType::Newline));
             }
 
             // Check if this is an escape sequence
@@ -263,6 +263,7 @@ impl Lexer {
             else {
                 acc.push(current);
             }
+            last = self.get_pos();
             self.consume_char();
         }
 
@@ -409,7 +410,7 @@ impl Iterator for Lexer {
                 let start = self.get_pos();
                 self.consume_char(); // Skip the first quote
 
-                let string_str = match self.acc_string() {
+                let string_str = match self.acc_string(start) {
                     Ok(s) => s,
                     Err(e) => {
                         if e.kind == StringLexErrorType::InvalidEscapeSequence {
@@ -464,7 +465,7 @@ impl Iterator for Lexer {
                                 c.to_string(),
                                 StringLexErrorType::Newline,
                                 start,
-                                self.get_pos(),
+                                start,
                             ))
                         }
                         // Otherwise, return the character as is
